@@ -453,3 +453,45 @@ def update_schemas_contract():
                             "built from it (pre: not yet registered); on failure the PropertyError's header contains the reference "
                             "path", props=["C07", "C20"])]
     return FnContract(f"{P}.schemas:update_schemas_with_data", [Case("any", make, cls, raises=(), props=["C07", "C20"])])
+
+
+def parse_reference_path_contract():
+    """C20 (all malformed reference strings): only a pure local fragment reference is accepted.  `urlparse` is an assumed
+    library function: its six components are uninterpreted functions of the string with the one fact
+        all components but the fragment empty  =>  clean(string) is "" or "#" + fragment
+    where clean is urlsplit's own pre-processing (leading controls / spaces stripped, tab / CR / LF removed; uninterpreted);
+    the fact is validated natively on a pool of strings by the bounded stand-in `reference_strings`."""
+    E = _errors()
+
+    def make(I):
+        from openapi_python_client.parser.properties import schemas as S
+        import urllib.parse as up
+        from pyvc.libmodels import MODELS
+        St = z3.StringSort()
+        raw = SStr(z3.Const("raw", St))
+        comp = {n: z3.Function(f"urlparse_{n}", St, St) for n in ("scheme", "netloc", "path", "params", "query", "fragment")}
+        clean = z3.Function("urlsplit_clean", St, St)
+
+        def urlparse(I2, a, k):
+            t = I2.to_str_term(a[0])
+            rest_empty = z3.And(*[comp[n](t) == "" for n in ("scheme", "netloc", "path", "params", "query")])
+            I2.fact(z3.Implies(rest_empty, z3.Or(clean(t) == "", clean(t) == z3.Concat(z3.StringVal("#"), comp["fragment"](t)))))
+            return SOpaque("ParseResult", attrs={n: SStr(f(t)) for n, f in comp.items()})
+        I.lib = dict(I.lib)
+        I.lib[up.urlparse] = urlparse
+        return SFunc("pyfunc", S.parse_reference_path), [raw], {}, {"raw": raw, "clean": clean}
+
+    def post(ctx):
+        I, i = ctx.I, ctx.inputs
+        v = ctx.value
+        if isinstance(v, SObj) and issubclass(v.cls, E.ParseError):
+            return True
+        r = I.to_str_term(v)
+        t = i["clean"](i["raw"].t)
+        return z3.Or(t == "", t == z3.Concat(z3.StringVal("#"), r))
+
+    cl = Clause("only-local-fragments-are-accepted", post,
+                statement="a reference string is accepted only if, after urlsplit's own whitespace cleaning, it is empty or exactly "
+                          "'#' + the returned fragment (no scheme, host, path, parameters or query in front of it); everything else is "
+                          "a ParseError", props=["C20", "C08"])
+    return FnContract(f"{P}.schemas:parse_reference_path", [Case("any-string", make, [cl], raises=(), props=["C20", "C08"])])
